@@ -7,8 +7,9 @@ names cannot collide.  Diagnostics are attributed to texts through line
 ranges; one text per distinct diagnostic signature is compiled again ALONE (in the
 company of the stub modules only) and must give the same signature, otherwise
 every blamed text is compiled alone and only the stand-alone diagnostics are
-used.  Texts without a diagnostic in the batch run were seen by the front end in
-full (-fmax-errors=0, every program unit of a file is parsed and resolved).
+used.  Because gfortran skips the resolution phase of a file that had parse-time
+errors, blamed texts are removed and the batch is repeated until the remaining
+file is accepted without any error.
 """
 import os
 import re
@@ -56,6 +57,10 @@ contains
 end module profile_psy_data_mod
 """,
 }
+
+
+_MAIN = re.compile(r"^(\s*)program\s+(\w+)\s*$", re.I | re.M)
+_END_MAIN = re.compile(r"^(\s*)end\s+program\b", re.I | re.M)
 
 
 def needs_flags(text):
@@ -122,10 +127,12 @@ def names_in(message):
 
 
 def uniquify(text, names, suffix):
-    """Renames program units textually (whole words, case-insensitive)."""
+    """Renames global names textually (whole words, case-insensitive; a name
+    used as the kind suffix of a literal, `1.0_wp`, is renamed too)."""
     for name in names:
-        text = re.sub(rf"\b{re.escape(name)}\b", f"{name}{suffix}", text,
-                      flags=re.IGNORECASE)
+        esc = re.escape(name)
+        text = re.sub(rf"(?:(?<![A-Za-z0-9_])|(?<=\d_)){esc}(?![A-Za-z0-9_])",
+                      f"{name}{suffix}", text, flags=re.IGNORECASE)
     return text
 
 
@@ -164,9 +171,10 @@ def compile_batch(raw_texts, workdir, tag, unit_names=(), stubs=(),
     per distinct diagnostic signature (``sig_of(errors) -> set``) is compiled
     again alone; if any stand-alone result differs from what the batch
     attributed to that text, every blamed text of the batch is compiled alone
-    and only those results are used.  Texts without a diagnostic in the batch
-    run were seen by the front end in full (-fmax-errors=0: every program unit
-    of the file is parsed and resolved)."""
+    and only those results are used.  gfortran does not resolve a file that
+    had errors while it was parsed, so the blamed texts are removed and the
+    batch is repeated until the remaining file is accepted without any error:
+    every text is either blamed (and confirmed) or part of a clean file."""
     if sig_of is None:
         def sig_of(errors):
             return set(slug(m) + ":" + ",".join(names_in(m))
@@ -186,59 +194,79 @@ def compile_batch(raw_texts, workdir, tag, unit_names=(), stubs=(),
     def clean(errors):
         return [(ln, re.sub(r"_u\d+\b", "", msg)) for ln, msg in errors]
     flags = sorted(set(f for t in texts.values() for f in needs_flags(t)))
-    path = os.path.join(workdir, f"batch_{tag}.f90")
-    ranges = []
-    with open(path, "w", encoding="utf-8") as fout:
-        head = "".join(STUBS[s].strip("\n") + "\n" for s in stubs)
-        fout.write(head)
-        lineno = 1 + head.count("\n")
-        for idx in uniq:
-            body = texts[idx]
-            if not body.endswith("\n"):
-                body += "\n"
-            num = body.count("\n")
-            ranges.append((lineno, lineno + num - 1, idx))
-            fout.write(body)
-            lineno += num
-    code, err = _run(flags + [os.path.basename(path)], workdir)
-    runs = 1
-    os.remove(path)
-    errs = _errors(parse_diagnostics(err))
-    if code != 0 and not errs:
-        raise CompilerHarnessError(
-            f"gfortran failed (rc={code}) without a recognisable "
-            f"diagnostic:\n{err[:2000]}")
+    head = "".join(STUBS[s].strip("\n") + "\n" for s in stubs)
     bad = {}
-    for lno, msg in errs:
-        hit = [(lo, i) for lo, hi, i in ranges
-               if lno is not None and lo <= lno <= hi]
-        if not hit:
-            raise CompilerHarnessError(
-                f"diagnostic without attributable line:\n{err[:2000]}")
-        low, idx = hit[0]
-        bad.setdefault(idx, []).append((lno - low + 1, msg))
     confirmed = set()
-    trusted = True
-    for idx in sorted(bad):
-        bad[idx] = clean(bad[idx])
-    for idx in sorted(bad):
-        sigs = frozenset(sig_of(bad[idx]))
-        if sigs <= confirmed:
-            # nothing new (or only diagnostics the caller ignores)
-            continue
-        alone = clean(compile_alone(texts[idx], workdir, f"{tag}_{idx}",
-                                    stubs))
+    alive = list(uniq)
+    runs = 0
+    while alive:
+        # a file may hold one main program only: in the batch file all main
+        # programs but the first are compiled as subroutines (the stand-alone
+        # confirmation always uses the text as written)
+        mains = 0
+        path = os.path.join(workdir, f"batch_{tag}.f90")
+        ranges = []
+        with open(path, "w", encoding="utf-8") as fout:
+            fout.write(head)
+            lineno = 1 + head.count("\n")
+            for idx in alive:
+                body = texts[idx]
+                if not body.endswith("\n"):
+                    body += "\n"
+                if _MAIN.search(body):
+                    mains += 1
+                    if mains > 1:
+                        body = _MAIN.sub(r"\1subroutine \2()", body)
+                        body = _END_MAIN.sub(r"\1end subroutine", body)
+                num = body.count("\n")
+                ranges.append((lineno, lineno + num - 1, idx))
+                fout.write(body)
+                lineno += num
+        code, err = _run(flags + [os.path.basename(path)], workdir)
         runs += 1
-        if frozenset(sig_of(alone)) != sigs:
-            trusted = False
+        os.remove(path)
+        errs = _errors(parse_diagnostics(err))
+        if code != 0 and not errs:
+            raise CompilerHarnessError(
+                f"gfortran failed (rc={code}) without a recognisable "
+                f"diagnostic:\n{err[:2000]}")
+        now = {}
+        for lno, msg in errs:
+            hit = [(lo, i) for lo, hi, i in ranges
+                   if lno is not None and lo <= lno <= hi]
+            if not hit:
+                raise CompilerHarnessError(
+                    f"diagnostic without attributable line:\n{err[:2000]}")
+            low, idx = hit[0]
+            now.setdefault(idx, []).append((lno - low + 1, msg))
+        if not now:
+            # the remaining texts were parsed AND resolved without any error
             break
-        bad[idx] = alone
-        confirmed |= sigs
-    if not trusted:
-        for idx in sorted(bad):
-            bad[idx] = clean(compile_alone(texts[idx], workdir,
-                                           f"{tag}_{idx}", stubs))
+        trusted = True
+        for idx in sorted(now):
+            now[idx] = clean(now[idx])
+        for idx in sorted(now):
+            sigs = frozenset(sig_of(now[idx]))
+            if sigs <= confirmed:
+                # nothing new (or only diagnostics the caller ignores)
+                continue
+            alone = clean(compile_alone(texts[idx], workdir, f"{tag}_{idx}",
+                                        stubs))
             runs += 1
+            if frozenset(sig_of(alone)) != sigs:
+                trusted = False
+                break
+            now[idx] = alone
+            confirmed |= sigs
+        if not trusted:
+            for idx in sorted(now):
+                now[idx] = clean(compile_alone(texts[idx], workdir,
+                                               f"{tag}_{idx}", stubs))
+                runs += 1
+        bad.update(now)
+        # gfortran skips the resolution phase of a file that had errors, so the
+        # texts that were not blamed are compiled again without the blamed ones
+        alive = [idx for idx in alive if idx not in now]
     for idx, body in enumerate(raw_texts):
         src = uniq[first[body]]
         if src in bad:
